@@ -79,6 +79,9 @@ def parse_file(path: Path | str) -> NixSourceCode:
     """Parse a Nix file from disk with UTF-8 decoding."""
     path = Path(path)
     source_code = path.read_text(encoding="utf-8")
+    # Imports are followed lazily: anchor the file now, so that a later change
+    # of the working directory cannot redirect them (symlinks are kept).
+    path = path.absolute()
     with source_path_context(path):
         source = parse(source_code, source_path=path)
     return source
